@@ -15,7 +15,9 @@ EXPLANATION = (
     "be legal, no reply may stay unread and none may be awaited that no command causes, the solver's level "
     "must mirror the caller's, the verdict must be the one given, and the model must assign every symbol of "
     "the live assertions the value the solver reported (R8).  Verdict table: sat / unsat / unknown / anything "
-    "else, for solve and is_sat (R6).")
+    "else, for solve and is_sat (R6).  Values of 21 symbols (bit-vectors of widths 3 - 16 with every position of the hexadecimal "
+    "digit b, rationals of both signs, negative integers) reported in four notations - z3's (#x.., (/ 1.0 3.0)), cvc5's (#b.., (/ (- 1) 3)), "
+    "indexed literals (_ bvN w), plain - come back from get_value and get_model as the reported values (R9).")
 NOT_DECIDED = ["API sequences longer than the bound (3 calls in the quick tier, 4 in the thorough tier)",
                "the factory shortcuts of pysmt/factory.py beyond Solver.is_sat (they construct real solver processes)"]
 
@@ -39,6 +41,23 @@ def run(ctx):
             else:
                 ctx.finding(rs, "seq|%s" % name, "after [%s]: %s" % (name, problems[0]), "pysmt/smtlib/solver.py")
         ctx.floor(rs, 300)
+
+    if ctx.want("R9"):
+        rs = ctx.rule("R9", "model values in the notations solvers reply with (hexadecimal / binary / indexed bit-vector literals, ratios "
+                            "of decimals or of numerals, negative numerals): get_value and get_model hand back the reported value")
+        for dialect, kind, problems in sd.text_value_results(repo):
+            dn = dialect or "plain"
+            if kind != "ok":
+                rs.unrec("%s: %s" % (dn, problems))
+                continue
+            bad = set()
+            for key, what in problems:
+                bad.add(key.split("|")[0])
+                ctx.finding(rs, "values|%s|%s" % (dn, key), "replies in the notation of %s: %s" % (dn, what), "pysmt/smtlib/parser/parser.py")
+            for nm in sorted(sd.VALUE_MODEL):
+                if nm not in bad:
+                    rs.ok({"notation": dn, "symbol": nm, "value": str(sd.VALUE_MODEL[nm])})
+        ctx.floor(rs, 60)
 
     if ctx.want("R6"):
         rs = ctx.rule("R6", "verdict table: sat / unsat / unknown / other, for solve and is_sat")
